@@ -1,4 +1,4 @@
-import CardVerif.Model.GinGame
+import CardModel.Model.GinGame
 /-!
 # Gin: what the turn allows, how a game ends and scores, what the views may show (C09, C10, C11, C17)
 
